@@ -368,12 +368,17 @@ def conformance(g, mod, name, pool, max_report=40, log=None):
     act_ix, act_list = {}, []
     per_abs = [dict() for _ in abs_list]                     # abs index -> {action index: set(dst node)}
     src, dst = g.src, g.dst
+    label_of = getattr(ad, "label_of", None)
+    lab, labels = g.lab, g.labels
     for i in range(len(src)):
         a = split[dst[i]][1]
         j = act_ix.get(a)
         if j is None:
             j = act_ix[a] = len(act_list)
             act_list.append(a)
+            if label_of is not None and label_of(a) != labels[lab[i]]:
+                raise HarnessError("dot reader: edge labelled %r leads to a state produced by action %r"
+                                   % (labels[lab[i]], a))
         d = per_abs[abs_of[src[i]]]
         s = d.get(j)
         if s is None:
